@@ -261,38 +261,53 @@ func (r *refState) cyclic(withStar bool) bool {
 
 // ---------------------------------------------------------------- known-finding classes (input only)
 
-// class of the current registration state, by priority; "" = none.
-//   self-target   a live callback was registered Before/After its own name
-//   named-cycle   the named (non-*) constraints of the live callbacks, together with the built-in order,
-//                 are cyclic: no order satisfies them, the property demands an error
-//   star-unsat    satisfiable without the * constraints but not with them (or a callback asks for
-//                 Before("*") and After("*") at once while another callback is live)
-//   star-replace  a live callback registered with Before("*") or After("*") has been Replaced
+// class of the current registration state (twin of C17_Known.class_of; check_case compares the two).
+//   self-target-silent  a live callback names itself AND carries a second, different request or is named by
+//                       another callback: it may be accepted silently
+//   star-unsat          satisfiable without the * requests but not with them (or Before("*") and After("*")
+//                       at once while another callback is live)
+//   star-replace        a live callback registered with Before("*") or After("*") has been Replaced
+//   after-overwritten   c = Before(x).Register(..) is sorted while x is not (c registered before x, or x is
+//                       a * callback): the code stores c's name into x.after, erasing x's own After request
+//   self-target         a live callback names itself, nothing else involved (since /repo 591f9f1: an error)
+//   named-cycle         the named requests, with the built-in order, are cyclic (since 591f9f1 an error
+//                       instead of a stack overflow; some are still accepted silently)
 func (r *refState) class() string {
+	selfT, selfSilent := false, false
 	for _, e := range r.live {
-		if (e.Before != "" && e.Before == e.Name) || (e.After != "" && e.After == e.Name) {
-			return "self-target"
+		sb := e.Before != "" && e.Before == e.Name
+		sa := e.After != "" && e.After == e.Name
+		if !(sb || sa) {
+			continue
+		}
+		selfT = true
+		if (sa && e.Before != "" && !sb) || (sb && e.After != "" && !sa) {
+			selfSilent = true
+		}
+		for _, c := range r.live {
+			if c.Name != e.Name && (c.Before == e.Name || c.After == e.Name) {
+				selfSilent = true
+			}
 		}
 	}
-	if r.cyclic(false) {
-		return "named-cycle"
+	if selfSilent {
+		return "self-target-silent"
 	}
-	if r.cyclic(true) {
-		return "star-unsat"
-	}
+	base := r.cyclic(false)
+	bothStar := false
 	for _, e := range r.live {
 		if e.Before == "*" && e.After == "*" && len(r.live) >= 2 {
-			return "star-unsat"
+			bothStar = true
 		}
+	}
+	if !base && (r.cyclic(true) || bothStar) {
+		return "star-unsat"
 	}
 	for _, e := range r.live {
 		if (e.Before == "*" || e.After == "*") && e.Hid != e.Reg {
 			return "star-replace"
 		}
 	}
-	// after-overwritten: c = Before(x).Register(..) is sorted while x is not yet (c was registered
-	// before x, or x is a * callback, which is sorted last): the code then stores c's name into
-	// x.after, which erases x's own After request.
 	for _, c := range r.live {
 		if c.Before == "" || c.Before == "*" {
 			continue
@@ -304,11 +319,25 @@ func (r *refState) class() string {
 			}
 		}
 	}
+	if selfT {
+		return "self-target"
+	}
+	if base {
+		return "named-cycle"
+	}
 	return ""
 }
 
-// sigOf: the class of the first step of the history whose state is in a known class ("" = none);
-// computed from the input only.  Also returns the distinct classes met along the history.
+// classCode: the constructor number of C17_Known.kclass
+var classCode = map[string]int{"": 0, "self-target": 1, "named-cycle": 2, "star-unsat": 3, "star-replace": 4,
+	"after-overwritten": 5, "self-target-silent": 6}
+
+var knownClass = map[string]bool{"self-target-silent": true, "named-cycle": true, "star-unsat": true,
+	"star-replace": true, "after-overwritten": true}
+
+// sigOf: the class of the first in-domain step of the history whose state is in a KNOWN class ("" = none);
+// computed from the input only (twin of C17_CheckK.first_known).  Also returns the distinct classes and
+// labels met along the history.
 func sigOf(in Input) (string, []string) {
 	r := newRef()
 	sig := ""
@@ -320,7 +349,7 @@ func sigOf(in Input) (string, []string) {
 			break
 		}
 		c := r.class()
-		if c != "" && sig == "" {
+		if knownClass[c] && sig == "" {
 			sig = c
 		}
 		if c != "" && !seen[c] {
